@@ -11,7 +11,7 @@ GEN = ['States']
 PROPS = ['C01'] + []
 
 MANIFEST = {
-    'level_text': 'Coq theorems over Model/Engine.v for every program/state/event: non-declared failures arise only from stale or duplicate messages, impossible joins are ERROR exactly when the cardinality is unreachable, joins run only with the cardinality met, workflow moves are documented table edges, final states are final; the no-stuck clause (quiescent => final) and the match with the language semantics are NOT proved: decided by trace correspondence model-vs-real-engine (0 disagreements required) and the implementation-side oracle on every quiescent trace.',
+    'level_text': 'Reverse workflows: Coq theorems over Model/Reverse.v (every definition, target and operation sequence: only tasks the target depends on exist, one execution each, everything an existing execution requires has succeeded, nothing needed is forgotten), tied to the real ReverseWorkflowController by differential runs and to the real engine by generated reverse workflows (requires graphs, task-defaults requires) with the prescribed-outcome oracle. Direct workflows: Coq theorems over Model/Engine.v for every program/state/event: non-declared failures arise only from stale or duplicate messages, impossible joins are ERROR exactly when the cardinality is unreachable, joins run only with the cardinality met, workflow moves are documented table edges, final states are final; the no-stuck clause (quiescent => final) and the match with the language semantics are NOT proved: decided by trace correspondence model-vs-real-engine (0 disagreements required) and the implementation-side oracle on every quiescent trace.',
     'level_note': 'Model = control-flow core of the engine (one direct-workflow execution, action tasks, joins all/one/N, on-success/on-error/on-complete with guards whose value is part of the program, engine commands fail/succeed/pause/noop, operator pause/resume/stop/rerun/skip, duplicate deliveries). One event = one committed transaction (tx_lock); data flow, policies, with-items and sub-workflows are outside this model (component models / oracles). Trusted: the harness interception points (rpc client, executor, post_tx_queue threads, scheduler rows, clock, uuid source), view abstraction, Gen/States translator.',
     'technique': 'Coq per-step theorems + trace correspondence of the real engine under a deterministic scheduler harness + quiescence oracle',
     'design_ref': '6 C01, 4, 5',
@@ -29,6 +29,13 @@ def run(ctx):
     # quiescent => final, no lost message, no internal error; for C10 also: runs with pause/resume end like runs without
     from harness import engine_explore as ee
     ee.explore(ctx, ['C01'], ee.FEATURES, ctx.n(30, 300), 4, suite='engine_explore_C01')
+    # reverse workflows (requires graphs, task-defaults requires, a target): the real engine under seeded delivery orders
+    # with pauses; oracle = the prescribed outcome (the tasks the target depends on, each after what it requires
+    # succeeded, each once; final state) - and the real controller vs Model/Reverse.v over generated row sets and runs
+    ee.explore(ctx, ['C01'], ['reverse'], ctx.n(24, 240), 3, suite='engine_explore_reverse')
+    from harness.suites import C04
+    C04.suite_reverse(ctx)
+    C04.suite_reverse_runs(ctx)
 
 
 def search(ctx):
